@@ -470,7 +470,10 @@ def audit_deviation(kind, pr, clause):
         return "CapsuleIgnoresSections"
     if kind == "revolve2" and pr.get("sections", 0) is None and pr.get("angle64", 64) < 2:
         return "RevolveDefaultSectionsZero"
-    if kind == "magnitude" and pr.get("kind") in fam.REVOLVED and (pr["exp2"] <= -10 or pr["exp2"] >= 18) and not clause.startswith("analytic"):
+    # creation.revolve drops template triangles whose area is <= tol.merge = 1e-8 whatever the size of the shape: real faces
+    # of small shapes go (observed for sizes 2^-10 and below), the sliver triangles at poles computed as sin(pi) * r stay for
+    # large ones (observed for 2^14 and above)
+    if kind == "magnitude" and pr.get("kind") in fam.REVOLVED and (pr["exp2"] <= -10 or pr["exp2"] >= 14) and not clause.startswith("analytic"):
         return "RevolveAbsoluteAreaCull"
     return None
 
